@@ -33,10 +33,14 @@ number, with a (nested) tuple of numbers); values of these types are let-bound, 
 back through `self`; `match` is generated on numbers (integer literal arms + `_`), on sum values (constructor arms with
 payload binders, exhaustive or with `_`) and on tuples of numbers / sum values (tuple patterns + `_`), with stateful arms.
 Functions and lambdas whose return type is a tuple / record / sum / nested data type use `self` at that type.
-  R8  the arms of a match are generated so that the compiler's selection (switch on the literal / tag arms with the first `_`
-      as default; decision tree for tuple patterns) agrees with first-match order, and an arm that the decision tree
-      compiles more than once is stateless; one match in ten is left as generated (classes M1 M2 M3 of lmmx.known_classes:
-      a backend is exempt only when it deviates).
+  R8  an arm of a tuple match that the decision tree compiles more than once is stateless; one match in ten is left as
+      generated (class M2 of lmmx.known_classes: a backend is exempt only when it deviates).
+REPAIRED classes that the generator used to avoid and now PRODUCES (a deviation is a VIOLATION): M1 (a `_` arm or a more
+general tuple arm BEFORE other arms: one match in three gets such an arm), M3 (two arms with the same literal / constructor),
+M5 (nested tuple patterns with variables in the payload of a constructor pattern inside a tuple pattern), W11 (a lambda in
+the arm captures such a payload binder), W12 (a variable bound by a pattern on a wide `self` used directly as a component of
+the rebuilt value), S1 (record patterns on `self` are printed with shuffled fields by lmmx.PP), W10 / W13 / MG (never
+avoided, only excused).
 """
 from lmmx import *
 
@@ -165,8 +169,6 @@ class XGen:
         # R2 (reading side): an assigned local is mentioned only by its frame and by directly nested lambdas
         if v.mutable and v.kind == 'local' and sc.depth - v.depth > 1:
             return False
-        if getattr(v, 'no_capture', False) and sc.depth > v.depth:
-            return False              # R10: a payload binder of a TUPLE match is not captured by a lambda (finding W11)
         return True
 
     def note_use(self, sc, v):
@@ -234,8 +236,8 @@ class XGen:
         """(pattern binding every number / sum component of a value of type t, expression that builds the value again)"""
         if t == F or t[0] == 'S':
             x = self.fresh()
-            # `+ 0.0`: a pattern-bound variable used directly as a component of the result leaks an address on WASM (finding W12)
-            return ('pv', x), (('bin', 'add', ('var', x), ('lit', 0)) if t == F else ('var', x))
+            # the variable directly as a component of the result in one case of two (the repaired W12: WASM leaked an address)
+            return ('pv', x), (('bin', 'add', ('var', x), ('lit', 0)) if (t == F and self.rng.chance(1, 2)) else ('var', x))
         if t[0] == 'T':
             parts = [self.full_pattern(x) for x in t[1]]
             return ('pt', [q for q, _ in parts]), ('tup', [e for _, e in parts])
@@ -275,16 +277,15 @@ class XGen:
     # ---- match ---------------------------------------------------------------------------------------------
     def payload_pat(self, sc, t, vs, in_tuple=False, nested=False):
         """binding pattern for a payload of type t (variables / `_` / tuples of them); appends the new Vars to vs.
-        in_tuple: the constructor pattern is a component of a tuple pattern: R10 (no capture) and no nested tuple pattern with
-        variables (finding M5: the decision tree binds them to the wrong component)"""
+        (in_tuple: the constructor pattern is a component of a tuple pattern; nested tuple patterns with variables and captures
+        of the binders are generated there too since the repairs of M5 and W11)"""
         r = self.rng
-        if isinstance(t, tuple) and t[0] == 'T' and r.chance(3, 4) and not (in_tuple and nested):
+        if isinstance(t, tuple) and t[0] == 'T' and r.chance(3, 4):
             return ('pt', [self.payload_pat(sc, x, vs, in_tuple, True) for x in t[1]])
-        if r.chance(1, 6) or (in_tuple and nested and isinstance(t, tuple)):
+        if r.chance(1, 6):
             return ('pw',)
         x = self.fresh()
         v = Var(x, t, 'local', sc.depth)
-        v.no_capture = in_tuple
         vs.append(v)
         return ('pv', x)
 
@@ -315,15 +316,16 @@ class XGen:
         """a match expression of type float"""
         r = self.rng
         kind = r.below(3) if self.sumtys else r.choice([0, 0, 2])
-        free = r.chance(1, 10)                 # leave the arms as generated (classes M1 / M2 / M3)
+        free = r.chance(1, 10)                 # leave the arms as generated (class M2)
+        early = r.chance(1, 3)                 # a `_` / general arm before other arms, or two arms with the same pattern (repaired M1 / M3)
         for attempt in range(4):
             binders = []
             if kind == 0:
                 scrut = r.choice([self.leafF(sc), self.exprF(sc, d - 1), ('bin', 'sub', ('now',), ('lit', r.range(0, 3)))])
                 pats = [('ml', k) for k in (r.choice([[0], [0, 1], [1, 2], [0, 1, 2], [2, 0], [1, 3, 0]]))]
                 pats.append(('mw',))
-                if free and r.chance(1, 2):
-                    pats.insert(r.below(len(pats)), r.choice([('mw',), ('ml', r.range(0, 2))]))
+                if early:
+                    pats.insert(r.below(len(pats)), r.choice([('mw',), ('ml', r.range(0, 2)), ('ml', r.range(0, 2))]))
                 binders = [[] for _ in pats]
                 ncols = None
             elif kind == 1:
@@ -345,7 +347,7 @@ class XGen:
                     binders.append(vs)
                 if wild:
                     pats.append(('mw',)); binders.append([])
-                if free and r.chance(1, 2):
+                if early:
                     k = r.below(len(pats))
                     vs = []
                     tg = r.below(len(pay))
@@ -361,9 +363,19 @@ class XGen:
                     vs = []
                     pats.append(('mt', [self.cell_pat(sc, t, vs) for t in ctys]))
                     binders.append(vs)
+                if early:
+                    k = r.below(len(pats) + 1)
+                    if r.chance(1, 2) or not pats:
+                        pats.insert(k, r.choice([('mw',), ('mt', [('mw',)] * ncols)])); binders.insert(k, [])
+                    else:
+                        j = r.below(len(pats))      # the same pattern twice (binders renamed)
+                        vs = []
+                        pats.insert(k, self.rename_mpat(sc, pats[j], binders[j], vs)); binders.insert(k, vs)
                 pats.append(('mw',)); binders.append([])
             sel = match_selection(pats, self.sumtys, ncols)
-            if free or (sel['first_match_everywhere'] and not sel['no_arm']):
+            if not sel['first_match_everywhere']:
+                raise AssertionError("lmmx.match_selection: the model of the compiler's arm selection leaves first-match order on %r" % (pats,))
+            if not sel['no_arm']:
                 break
         else:
             pats, binders = [('mw',)], [[]]
@@ -373,6 +385,23 @@ class XGen:
             arms.append((m, self.arm_body(sc, vs, d - 1, stateless=(sel['copies'][i] != 1 and not free))))
         return ('match', scrut, arms)
 
+
+    def rename_mpat(self, sc, m, old_vars, vs):
+        """a copy of the match pattern m with fresh binders (appended to vs with the types of the old ones)"""
+        tys = {v.id: v.ty for v in old_vars}
+        def pat(q):
+            if q[0] == 'pv':
+                x = self.fresh()
+                vs.append(Var(x, tys.get(q[1], F), 'local', sc.depth))
+                return ('pv', x)
+            if q[0] == 'pt': return ('pt', [pat(x) for x in q[1]])
+            if q[0] == 'pr': return ('pr', [(f, pat(x)) for f, x in q[1]])
+            return q
+        def go(m):
+            if m[0] == 'mc': return ('mc', m[1], m[2], None if m[3] is None else pat(m[3]))
+            if m[0] == 'mt': return ('mt', [go(x) for x in m[1]])
+            return m
+        return go(m)
 
     def args_for(self, sc, ptys, d):
         return [self.arg(sc, t, d) for t in ptys]
